@@ -525,15 +525,24 @@ def _t2_exec(case, order):
     state = _t2_state(case["mem"])
     t1 = types.SimpleNamespace(graph_deltas=[], metrics={})
     scope = case.get("scope", "any")
+    pre = case.get("pre_text")
     if order is None:
         cfg = _t2_cfg(case["tiers"], case["k"], case["m"], case["w"], False, scope)
         try:
+            if pre is not None:
+                t2_core.t2_semantic(W.make_ctx(cfg, "A", 1), state, pre, t1)
             return ("ok", t2_core.t2_semantic(W.make_ctx(cfg, "A", 1), state, case["text"], t1)), None
         except HarnessError:
             raise
         except Exception as e:  # noqa: BLE001
             return ("exc", e), None
     cfg = _t2_cfg(case["tiers"], case["k"], case["m"], case["w"], True, scope)
+    if pre is not None:
+        # an earlier, different query against the same index object in the same process (free-running pool)
+        try:
+            t2_core.t2_semantic(W.make_ctx(cfg, "A", 1), state, pre, t1)
+        except Exception:  # noqa: BLE001
+            pass
     gate = StageGate(t2_core, None if order == "census" else order)
     with gate:
         try:
@@ -700,6 +709,15 @@ def t2_units(thorough: bool, seed: int):
                         for w in (2, 3):
                             units.append({"kind": "t2", "mem": list(mem), "tiers": tiers, "k": k, "m": 1, "w": w,
                                           "text": T2_TEXT, "scope": scope})
+    # two-queries leg: a different query was answered first on the same index (anything the fan-out remembers between
+    # calls must be keyed by the query)
+    for mem in itertools.permutations(["a", "c", "e"] + (["b"] if thorough else []), 3):
+        for tiers in (["cluster_semantic"], ["exact_semantic", "cluster_semantic"]):
+            for k in (1, 64):
+                for w in (2, 3):
+                    for pre_text, text in (("pear cider", T2_TEXT), (T2_TEXT, "pear cider")):
+                        units.append({"kind": "t2", "mem": list(mem), "tiers": tiers, "k": k, "m": 1, "w": w, "text": text,
+                                      "pre_text": pre_text})
     return units
 
 
